@@ -520,7 +520,33 @@ func rulePosStamp(c *Ctx, r *R) {
 				return true
 			}
 			if sel, ok := unparen(as.Lhs[0]).(*ast.SelectorExpr); ok && sel.Sel.Name == "Pos" {
-				if call, ok := unparen(as.Rhs[0]).(*ast.CallExpr); ok && c.CalleeName(call) == "newPos" {
+				call, ok := unparen(as.Rhs[0]).(*ast.CallExpr)
+				// a one-line helper that builds the position of the token it is given
+				// (c.posOf(tok)): look at its newPos call with the argument substituted
+				var helperParam, helperArg types.Object
+				if ok && c.CalleeName(call) != "newPos" {
+					if o := c.Callee(call); o != nil && c.isNewHelper(o) {
+						if h := c.DeclOf(o); h != nil && h.Body != nil && len(h.Body.List) == 1 {
+							if rs, isRet := h.Body.List[0].(*ast.ReturnStmt); isRet && len(rs.Results) == 1 {
+								if inner, isCall := unparen(rs.Results[0]).(*ast.CallExpr); isCall && c.CalleeName(inner) == "newPos" {
+									k := 0
+									for _, f := range h.Type.Params.List {
+										for _, nm := range f.Names {
+											if k < len(call.Args) {
+												if id, isId := unparen(call.Args[k]).(*ast.Ident); isId {
+													helperParam, helperArg = c.Info.Defs[nm], c.Obj(id)
+												}
+											}
+											k++
+										}
+									}
+									call = inner
+								}
+							}
+						}
+					}
+				}
+				if ok && c.CalleeName(call) == "newPos" {
 					src := c.Src(call)
 					if strings.Contains(src, ".Pos.Line") && strings.Contains(src, ".Pos.Filename") {
 						good = true
@@ -540,6 +566,12 @@ func rulePosStamp(c *Ctx, r *R) {
 						// X.Pos.Line / X.Pos.Filename / X.Pos.Column
 						if inner, ok := unparen(sel.X).(*ast.SelectorExpr); ok && inner.Sel.Name == "Pos" {
 							root := rootIdent(inner.X)
+							if root != nil && helperParam != nil && c.Obj(root) == helperParam && nosp(c.Src(inner.X)) == root.Name {
+								if helperArg != tokParam {
+									stampFrom = "another token than the node being compiled"
+								}
+								continue
+							}
 							if root == nil || c.Obj(root) != tokParam || nosp(c.Src(inner.X)) != root.Name {
 								stampFrom = nosp(c.Src(inner.X))
 							}
@@ -837,6 +869,34 @@ func ruleLoadFilter(c *Ctx, r *R) {
 			return true
 		})
 	}
+	// any other spelling of the filter (predicate helper, positive form, merged conditions): the
+	// loop whose iteration, evaluated on sample names, keeps main.go and drops main_test.go
+	var evalLoop *ast.RangeStmt
+	if filt == nil {
+		for _, hfd := range c.withHelpers(fd) {
+			if evalLoop != nil {
+				break
+			}
+			hfd := hfd
+			ast.Inspect(hfd.Body, func(n ast.Node) bool {
+				rs, ok := n.(*ast.RangeStmt)
+				if !ok || evalLoop != nil {
+					return true
+				}
+				k1, t1, ok1 := c.keepsElement(rs, "pkg/main.go")
+				k2, _, ok2 := c.keepsElement(rs, "pkg/main_test.go")
+				if ok1 && ok2 && k1 && !k2 {
+					evalLoop, filtLoop, filtFn, positiveKept = rs, rs, hfd, t1
+					for _, s := range rs.Body.List {
+						if ifs, ok := s.(*ast.IfStmt); ok && filt == nil {
+							filt = ifs
+						}
+					}
+				}
+				return true
+			})
+		}
+	}
 	if !r.check(filt != nil, "_test.go filter", c.Pos(fd), "files ending in _test.go are skipped", "rawLoadPackage no longer skips files ending in _test.go") {
 		return
 	}
@@ -887,6 +947,11 @@ func ruleLoadFilter(c *Ctx, r *R) {
 				return false
 			}
 			if rs, ok := n.(*ast.ReturnStmt); ok && len(rs.Results) == 2 && isIdent(rs.Results[1], "nil") {
+				if got := c.Src(rs.Results[0]); got != kept && got != "nil" {
+					okRets = false
+				}
+			}
+			if rs, ok := n.(*ast.ReturnStmt); ok && len(rs.Results) == 1 && c.EnclosingFunc(rs) == filtFn {
 				if got := c.Src(rs.Results[0]); got != kept && got != "nil" {
 					okRets = false
 				}
@@ -1104,6 +1169,23 @@ func ruleLoadFilter(c *Ctx, r *R) {
 		// files the go tool leaves out by name: *_test.go (above) and names beginning with _ or .
 		if lp := c.Func("rawLoadPackage"); lp != nil {
 			under, dot := false, false
+			// decided on sample names when the filter loop can be evaluated
+			for _, hfd := range c.withHelpers(lp) {
+				ast.Inspect(hfd.Body, func(n ast.Node) bool {
+					rs, ok := n.(*ast.RangeStmt)
+					if !ok {
+						return true
+					}
+					k0, _, ok0 := c.keepsElement(rs, "pkg/main.go")
+					k1, _, ok1 := c.keepsElement(rs, "pkg/_old.go")
+					k2, _, ok2 := c.keepsElement(rs, "pkg/.#main.go")
+					k3, _, ok3 := c.keepsElement(rs, "_pkg/.x/main.go")
+					if ok0 && ok1 && ok2 && ok3 && k0 && k3 && !k1 && !k2 {
+						under, dot = true, true
+					}
+					return true
+				})
+			}
 			ast.Inspect(lp.Body, func(n ast.Node) bool {
 				call, ok := n.(*ast.CallExpr)
 				if !ok || c.CalleeName(call) != "strings.HasPrefix" || len(call.Args) != 2 {
@@ -1667,6 +1749,56 @@ func ruleFuncIsolated(c *Ctx, r *R) {
 			}
 			return true
 		})
+		// the nested VM made as a copy of the calling one (vm := *v): every piece of per-run
+		// state the copy inherits has to be replaced — the stack (judged as above), and the
+		// backtrace, or the calls active in the outer run are listed again in the nested one
+		ast.Inspect(fd.Body, func(n ast.Node) bool {
+			as, ok := n.(*ast.AssignStmt)
+			if !ok || len(as.Lhs) != 1 || len(as.Rhs) != 1 {
+				return true
+			}
+			star, ok := unparen(as.Rhs[0]).(*ast.StarExpr)
+			if !ok || !isIdent(star.X, recv) {
+				return true
+			}
+			cp, ok := as.Lhs[0].(*ast.Ident)
+			if !ok {
+				return true
+			}
+			cpObj := c.Obj(cp)
+			stackSet, btReset := false, false
+			ast.Inspect(fd.Body, func(m ast.Node) bool {
+				a2, ok := m.(*ast.AssignStmt)
+				if !ok || len(a2.Lhs) != len(a2.Rhs) {
+					return true
+				}
+				for i, l := range a2.Lhs {
+					sel, ok := unparen(l).(*ast.SelectorExpr)
+					if !ok {
+						continue
+					}
+					if id, ok := unparen(sel.X).(*ast.Ident); !ok || c.Obj(id) != cpObj {
+						continue
+					}
+					switch sel.Sel.Name {
+					case "stack":
+						stackSet = true
+						judge(a2.Rhs[i], a2)
+					case "backtrace":
+						rs := nosp(c.Src(a2.Rhs[i]))
+						if rs == "nil" || strings.HasSuffix(rs, "{}") || strings.Contains(rs, "[:0]") {
+							btReset = true
+						}
+					}
+				}
+				return true
+			})
+			found = true
+			r.check(stackSet, fn+" stack", c.Pos(as), "the copied VM gets its own stack", fn+" runs the nested call on a copy of the calling VM that still shares its operand stack")
+			r.check(btReset, fn+" backtrace", c.Pos(as), "the copied VM starts with an empty backtrace",
+				fn+" makes the nested VM as a copy of the calling one (`"+cp.Name+" := *"+recv+"`) and keeps its backtrace: a native that calls back through the *VM it was handed starts the nested run with the outer chain already recorded, so an error inside the callback lists every call active above the native twice")
+			return true
+		})
 		if !found {
 			r.undecided(fn+" stack", c.Pos(fd), "no VM literal with a stack field")
 		}
@@ -2051,6 +2183,41 @@ func ruleLoadImportAll(c *Ctx, r *R) {
 				if strings.HasSuffix(rs, ".Tokens[0].Text") {
 					renames = true
 				}
+				// ... or a name obtained from it: `name := clause.Tokens[0].Text`, or
+				// `name, ok := declaredName(pkg)` with a new helper that returns it
+				if id, ok := unparen(as.Rhs[0]).(*ast.Ident); ok {
+					o := c.Obj(id)
+					ast.Inspect(h.Body, func(k ast.Node) bool {
+						def, ok := k.(*ast.AssignStmt)
+						if !ok {
+							return true
+						}
+						for i, l := range def.Lhs {
+							lid, ok := l.(*ast.Ident)
+							if !ok || c.Obj(lid) != o {
+								continue
+							}
+							if len(def.Rhs) == len(def.Lhs) && strings.HasSuffix(nosp(c.Src(def.Rhs[i])), ".Tokens[0].Text") {
+								renames = true
+							}
+							if len(def.Rhs) == 1 {
+								if call, ok := unparen(def.Rhs[0]).(*ast.CallExpr); ok {
+									if ho := c.Callee(call); ho != nil && c.isNewHelper(ho) {
+										if hd := c.DeclOf(ho); hd != nil && hd.Body != nil {
+											ast.Inspect(hd.Body, func(q ast.Node) bool {
+												if ret, ok := q.(*ast.ReturnStmt); ok && i < len(ret.Results) && strings.HasSuffix(nosp(c.Src(ret.Results[i])), ".Tokens[0].Text") {
+													renames = true
+												}
+												return true
+											})
+										}
+									}
+								}
+							}
+						}
+						return true
+					})
+				}
 				return true
 			})
 		}
@@ -2179,37 +2346,30 @@ func rulePosStore(c *Ctx, r *R) {
 		return found
 	}
 	n := 0
-	ast.Inspect(cs.Switch, func(m ast.Node) bool {
-		ifs, ok := m.(*ast.IfStmt)
-		if !ok {
-			return true
-		}
-		var target types.Object
-		for _, cj := range conjuncts(ifs.Cond) {
-			be, ok := unparen(cj).(*ast.BinaryExpr)
-			if !ok || be.Op != token.EQL {
-				continue
-			}
-			sel, ok := unparen(be.X).(*ast.SelectorExpr)
-			if !ok || sel.Sel.Name != "Symbol" {
-				continue
-			}
-			s, ok := c.ConstString(be.Y)
-			if !ok || (s != "index" && s != ".") {
-				continue
-			}
-			if id, ok := unparen(sel.X).(*ast.Ident); ok && c.Obj(id) != tokParam {
-				target = c.Obj(id)
-			}
-		}
-		if target == nil {
-			return true
-		}
-		// this branch handles an assignment target only when it sits in an assignment case:
-		// it both compiles the target's children and emits a store
-		ast.Inspect(ifs.Body, func(k ast.Node) bool {
+	var scan func(body ast.Node, target types.Object, depth int)
+	scan = func(body ast.Node, target types.Object, depth int) {
+		ast.Inspect(body, func(k ast.Node) bool {
 			if _, ok := k.(*ast.FuncLit); ok {
 				return false
+			}
+			// a new helper that is handed the target emits the access on its behalf
+			if call, ok := k.(*ast.CallExpr); ok && depth < 2 {
+				if o := c.Callee(call); o != nil && c.isNewHelper(o) {
+					if h := c.DeclOf(o); h != nil && h.Body != nil {
+						pi := 0
+						for _, f := range h.Type.Params.List {
+							for _, nm := range f.Names {
+								if pi < len(call.Args) {
+									if id, ok := unparen(call.Args[pi]).(*ast.Ident); ok && c.Obj(id) == target {
+										scan(h.Body, c.Info.Defs[nm], depth+1)
+									}
+								}
+								pi++
+							}
+						}
+					}
+				}
+				return true
 			}
 			cl, ok := k.(*ast.CompositeLit)
 			if !ok {
@@ -2245,6 +2405,53 @@ func rulePosStore(c *Ctx, r *R) {
 				"the "+code+" that an assignment makes on its `"+target.Name()+"` target carries no position of its own: the stamping loop gives it the position of the assignment operator — `grid[row*4+` newline `col] = 1` reports the fault on the line of the `=`, while the load of the same element (and Go) report the line of the `[`")
 			return true
 		})
+	}
+	symbolOf := func(e ast.Expr) types.Object {
+		sel, ok := unparen(e).(*ast.SelectorExpr)
+		if !ok || sel.Sel.Name != "Symbol" {
+			return nil
+		}
+		if id, ok := unparen(sel.X).(*ast.Ident); ok && c.Obj(id) != tokParam {
+			return c.Obj(id)
+		}
+		return nil
+	}
+	ast.Inspect(cs.Switch, func(m ast.Node) bool {
+		switch x := m.(type) {
+		case *ast.IfStmt:
+			for _, cj := range conjuncts(x.Cond) {
+				be, ok := unparen(cj).(*ast.BinaryExpr)
+				if !ok || be.Op != token.EQL {
+					continue
+				}
+				s, ok := c.ConstString(be.Y)
+				if !ok || (s != "index" && s != ".") {
+					continue
+				}
+				if target := symbolOf(be.X); target != nil {
+					scan(x.Body, target, 0)
+				}
+			}
+		case *ast.SwitchStmt:
+			// switch arg.Symbol { case "index": ... case ".": ... }
+			if x.Tag == nil {
+				return true
+			}
+			target := symbolOf(x.Tag)
+			if target == nil {
+				return true
+			}
+			for _, cc := range x.Body.List {
+				cl := cc.(*ast.CaseClause)
+				for _, e := range cl.List {
+					if s, ok := c.ConstString(e); ok && (s == "index" || s == ".") {
+						for _, st := range cl.Body {
+							scan(st, target, 0)
+						}
+					}
+				}
+			}
+		}
 		return true
 	})
 	if n == 0 {
@@ -2361,6 +2568,40 @@ func ruleApiErrChain(c *Ctx, r *R) {
 		}
 		return true
 	})
+	// no return ahead of the error test: a path that leaves btErr before the recovered value has
+	// been looked at returns a flattened text for an error too
+	var firstTest token.Pos
+	ast.Inspect(fd.Body, func(n ast.Node) bool {
+		if ta, ok := n.(*ast.TypeAssertExpr); ok {
+			if id, ok := unparen(ta.X).(*ast.Ident); ok && c.Obj(id) == rec && (!firstTest.IsValid() || ta.Pos() < firstTest) {
+				firstTest = ta.Pos()
+			}
+		}
+		return true
+	})
+	if kept && firstTest.IsValid() {
+		ast.Inspect(fd.Body, func(n ast.Node) bool {
+			if _, ok := n.(*ast.FuncLit); ok {
+				return false
+			}
+			rs, ok := n.(*ast.ReturnStmt)
+			if !ok || rs.Pos() > firstTest || len(rs.Results) != 1 || isIdent(rs.Results[0], "nil") {
+				return true
+			}
+			// fmt.Errorf("...%w...", r) wraps whatever error r holds
+			if call, ok := unparen(rs.Results[0]).(*ast.CallExpr); ok && c.CalleeName(call) == "fmt.Errorf" && len(call.Args) >= 2 {
+				if f, ok := c.ConstString(call.Args[0]); ok && strings.Contains(f, "%w") {
+					for _, a := range call.Args[1:] {
+						if id, ok := unparen(a).(*ast.Ident); ok && c.Obj(id) == rec {
+							return true
+						}
+					}
+				}
+			}
+			r.fail("raised error stays in the chain", c.Pos(rs), "btErr returns here before it has looked at whether the recovered value is an error: on this path (an instruction without a source position — the call that Func / Call make for the host, a native comparator called back through Func) the error a native callback raised is flattened into text and errors.Is / errors.As cannot find it")
+			return true
+		})
+	}
 	r.check(kept, "raised error stays in the chain", where, "btErr's result unwraps to the error a callback raised",
 		"btErr formats the recovered value into a new error text and drops the value: when a native callback raises a Go error (panic(errQuota), as slices.SortFunc does with the error of its nested call), errors.Is / errors.As on the error Call, Func or Load returns cannot find it — only its text surfaces")
 }
